@@ -475,6 +475,10 @@ def parse_use(toks, uses):
 
 # ------------------------------------------------------------------ the constructor table
 UNSIZED_KEYS = {"str", "slice", "std::path::Path", "std::ffi::OsStr", "std::ffi::CStr"}
+# `?Sized` constructors that only hold a pointer to their argument (always Sized).  Every other `?Sized`
+# constructor is taken to store its argument by value (Cell<str>, Mutex<[u8]> … are themselves unsized).
+POINTER_LIKE = {"std::sync::Arc", "Box", "std::rc::Rc", "std::sync::Weak", "std::rc::Weak", "ref", "refmut",
+                "ptrconst", "ptrmut", "std::ptr::NonNull", "std::borrow::Cow", "std::marker::PhantomData"}
 RUST_PRELUDE = {"String", "Vec", "Box", "Option", "Result", "str", "bool", "char", "u8", "u16", "u32", "u64",
                 "u128", "usize", "i8", "i16", "i32", "i64", "i128", "isize", "f32", "f64"}
 
@@ -618,7 +622,8 @@ def derived_table(rule):
         e = ("name", uniq)
         for i in range(n):
             e = ("combine", ("param", i), e) if rule["order"] == "param_first" else ("combine", e, ("param", i))
-        gens = [{"name": "ABCDEFGH"[i], "kind": "type", "bounds": ["Identifiable"], "unsized_ok": False} for i in range(n)]
+        gens = [{"name": "ABCDEFGH"[i], "kind": "type", "unsized_ok": False,
+                 "bounds": ["Identifiable"] + (["QueryKeyParam"] if how == "Query" else [])} for i in range(n)]
         rust = f"{mod}::{name}" + ("<" + ",".join(g["name"] for g in gens) + ">" if n else "")
         out.append({"key": f"derive:{mod}::{name}", "rust": rust, "generics": gens, "where": [], "expr": e,
                     "origin": "derive", "module": mod, "struct": name, "how": how, "unused_params": []})
@@ -666,7 +671,11 @@ class Uni:
         return 1 + max(self.depth(a) for a in t[2])
 
     def sized(self, t):
-        return not (t[0] == "c" and self.table[t[1]]["key"] in UNSIZED_KEYS)
+        if t[0] != "c": return True
+        c = self.table[t[1]]
+        if c["key"] in UNSIZED_KEYS: return False
+        if c["key"] in POINTER_LIKE: return True
+        return all(self.sized(a) for a in t[2])
 
     def pyid(self, t):
         if t in self._idc: return self._idc[t]
@@ -694,6 +703,7 @@ class Uni:
             return arg[0] == "c" and self.table[arg[1]]["key"] == "array"
         if bound == "BitStore": return s in {"u8", "u16", "u32", "u64", "usize"}
         if bound == "BitOrder": return s in {"bitvec::order::Lsb0", "bitvec::order::Msb0"}
+        if bound == "QueryKeyParam": return s in {"u8", "u16", "u32", "u64", "bool", "char", "String"}
         return None
 
     def admissible(self, ci, pi, arg):
@@ -963,6 +973,7 @@ def emit_lean(table, U, uni, fam_sizes, pairs, derive_rule):
     L.append("-/")
     L.append("import QbiceVerif.Model.TypeId")
     L.append("")
+    L.append("set_option compiler.extract_closed false   -- keeps the generated C small (the driver links this file)")
     L.append("namespace QbiceVerif.TypeId.Gen")
     L.append("open QbiceVerif.TypeId")
     L.append("")
